@@ -19,7 +19,8 @@ STRS = [
     "inf", "-Infinity", "1e999", "nan", "{x}", "a}", "${HOME}", "{{ user }}", "{0}",
 ]
 KEYS_STR = ["a", "b", "c", "x", "y", "", "0", "1", "A", "key", "path", "a.b", "value", "keys", "paths", "{x}", "a}", "${HOME}", "%(k)s"]
-KEYS_OTHER = [0, 1, 2, True, False, 2.5, None, -1, 1.5]
+KEYS_OTHER = [0, 1, 2, True, False, 2.5, None, -1, 1.5, 10, -0.0, 1e300, 2**40]
+KEYS_RARE = [" ", "a b", "line\nbreak", "tab\t", "é", "None", "True", "1.0", "-1", "a.b.c", "a/b", "k" * 60, "'q'", '"dq"', "#", "- x", "?", ":", "*", "&a"]
 
 
 def scalar(rng):
@@ -36,8 +37,11 @@ def scalar(rng):
 
 
 def key(rng, hostile=0.25):
-    if rng.random() < hostile:
+    r = rng.random()
+    if r < hostile:
         return rng.choice(KEYS_OTHER)
+    if r < hostile + 0.06:
+        return rng.choice(KEYS_RARE)
     return rng.choice(KEYS_STR)
 
 
@@ -46,7 +50,13 @@ def value(rng, depth, width):
     if depth <= 0 or r < 0.45:
         return scalar(rng)
     if r < 0.50:
-        return rng.choice([[], {}])
+        return rng.choice([[], {}, [[]], [{}], {"a": []}, [None], [[], [1]]])
+    if r < 0.515:
+        # a wide container (things that only look at the first few items / matches show up here)
+        n = rng.randint(12, 40)
+        if rng.random() < 0.5:
+            return [rng.choice(SMALL_INTS + ["a", None, 2.5]) for _ in range(n)]
+        return {f"k{i}": rng.choice(SMALL_INTS + ["a", None, [i], {"a": i}]) for i in range(n)}
     if r < 0.56:
         # homogeneous lists (numbers / strings in no particular order) - the common shape of real data
         pool_ = rng.choice([SMALL_INTS, SMALL_INTS, ["b", "a", "c", "3", "true", "x"], [2.5, 0.5, 1.0, -2.5]])
